@@ -156,6 +156,8 @@ def run(scn):
     try:
         if scn['kind'] == 'pager-pairs':
             return _run_pairs(scn, res)
+        if scn['kind'] == 'press128':
+            return _run_press(scn, res, wd)
         if scn['kind'] == 'pager-sim':
             return _run_sim(scn, res, wd)
         return _run_skoolmem(scn, res, wd)
@@ -375,6 +377,47 @@ def _run_pairs(scn, res):
     finally:
         roms = saved
 
+# -- tap2sna tracer hand-over (--press) ------------------------------------------------------------------
+
+def _run_press(scn, res, wd):
+    """The latch travels LoadTracer -> KeypressTracer -> LoadTracer in tap2sna when the tape is paused for a keypress.
+    Oracle: the final latch and the bank that received the marker follow the reference pager over the two writes."""
+    from . import gen_tzx, tapeload
+    try:
+        tape, start, machine, ranges, skip = gen_tzx.build(scn, wd)
+        cfg = dict(scn['base'])
+        cfg.update({'accelerator': 'auto', 'accelerate-dec-a': 1, 'pause': 1, 'python': int(scn['python']), 'fast-load': 0, 'cmio': 0, 'machine': '128', 'timeout': 200})
+        tapeload.set_accelerator_order(0)
+        out, st, snap = tapeload.load(tape, start, cfg, os.path.join(wd, 'press.szx'), scn['extra_args'])
+    except tapeload.ToolError as e:
+        return fail(res, 'C08/press/tool-error', str(e))
+    text = tapeload.stripped(out)
+    if 'PC at start address' not in text or 'Resuming LOAD' not in text:
+        res['discard'] = 'press scenario did not pause / reach its start address'
+        return res
+    p = scn['press']
+    model = RefPaging([bytes(0x4000)] * 8, 0x10)       # tap2sna starts a 128K machine in 48K BASIC (ROM 1, bank 0), unlocked
+    model.out(0x7FFD, p['v1'])
+    model.out(0x7FFD, p['v2'])
+    bump(res, 'events')
+    bump(res, 'fault:TRACER_HANDOVER(--press)')
+    if p['v1'] & 0x20:
+        bump(res, 'probe:write_after_lock')
+    tag = 'python' if scn['python'] else 'c'
+    if snap.out7ffd != model.o7ffd:
+        return fail(res, 'C08/press/latch', 'tap2sna --press (%s engine): final 0x7FFD latch %d, last accepted write %d (writes %d during the keypress phase, %d after the load resumed)' % (tag, snap.out7ffd, model.o7ffd, p['v1'], p['v2']))
+    ram = snap.ram(-1)
+    target = model.o7ffd & 7
+    for b in range(8):
+        got = ram[b * 16384]
+        if b == target and got != p['marker']:
+            return fail(res, 'C08/press/mapping', 'tap2sna --press (%s engine): marker %d stored through 0xC000 is not in bank %d (selected by the last accepted write %d; writes %d, %d)' % (tag, p['marker'], target, model.o7ffd, p['v1'], p['v2']))
+        if b != target and got == p['marker'] and b not in (5, 2, 0):
+            return fail(res, 'C08/press/mapping', 'tap2sna --press (%s engine): marker %d landed in bank %d, the last accepted write %d selects bank %d' % (tag, p['marker'], b, model.o7ffd, target))
+    res['sigs'].append('press|%s|%d' % (tag, (p['v1'] >> 5) & 1))
+    res['digest'] = hashlib.sha256(('%d|%d' % (snap.out7ffd, target)).encode()).hexdigest()
+    return res
+
 # -- skool-file memory model -------------------------------------------------------------------
 
 def gen_skoolmem(rng, tier, index):
@@ -509,6 +552,8 @@ def gen(rng, tier, index):
     return gen_sim(rng, tier, index - index // 5)
 
 def shrink_candidates(scn):
+    if scn['kind'] == 'press128':
+        return
     if scn['kind'] == 'pager-pairs':
         lo, hi = scn['lo'], scn['hi']
         if hi - lo > 1:
